@@ -5,6 +5,7 @@ import (
 	"fmt"
 	"os"
 	"path/filepath"
+	"regexp"
 	"sort"
 	"strings"
 
@@ -491,5 +492,8 @@ func sortedKeys[V any](m map[string]V) []string {
 	sort.Strings(ks)
 	return ks
 }
+
+// ruleNameRe is the file-name grammar of the statement: NNNNNN[-chainK].ra
+var ruleNameRe = regexp.MustCompile(`^[0-9]{6}(-chain[0-9]+)?\.ra$`)
 
 func sprintf(format string, args ...any) string { return fmt.Sprintf(format, args...) }
